@@ -318,7 +318,8 @@ def c16_check(tier, replay=None):
                 ("sync", "late", 1, (0, 4), "0.1" + NOWM),
                 # logic races behind locks need a preemption inside a short window and then a
                 # long undisturbed run of another thread: low rate, many seeds
-                ("sync", "pool", 2, (0, 22), "0.02"),
+                ("sync", "pool", 2, (0, 10), "0.02"),
+                ("sync", "pool", 2, (10, 20), "0.02"),
                 ("sync", "general", 3, (0, 5), "0.1"),
                 # expressions compiled once and searched by every thread, in the same order, dozens of times
                 ("sync", "shared", 7, (0, 6), "0.1"),
@@ -360,11 +361,15 @@ def c16_check(tier, replay=None):
     def run_entry(entry):
         feat, race, idx, seeds, rate = entry
         args = ["--seed", str(sd), "--index", str(idx), "--class", race]
+        t_e = time.time()
         iss, st = check_scenario(native, feat, args, seeds, rate)
+        st["wall_s"] = round(time.time() - t_e, 1)
         return entry, args, iss, st
     from common import pmap
     results = [run_entry(plan[0])] + pmap(run_entry, plan[1:], workers=4)
+    entry_times = []
     for (feat, race, idx, seeds, rate), args, iss, st in results:
+        entry_times.append({"class": race, "features": feat, "seeds": seeds[1] - seeds[0], "rate": rate, "wall_s": st.get("wall_s")})
         execs += st["execs"]
         per_feature[feat] = per_feature.get(feat, 0) + st["execs"]
         orders |= {(idx, o) for o in st["orders"]}
@@ -410,6 +415,7 @@ def c16_check(tier, replay=None):
         "executions_with_overlapping_threads": overlap,
         "executions_per_feature_set": per_feature,
         "scenarios": len(plan),
+        "plan_entry_wall_s": entry_times,
         "native_serial_thread_scenarios_compared": serial_n,
         "static_obligations_compiled": obligations,
         "runs_per_hour": int(execs / wall * 3600),
